@@ -73,6 +73,13 @@ fixed("C13","93aa1e9","C13:inline_function_name_as_value","'x = g ^ f;' with an 
 
 fixed("C09","b9f09de","pin:escaped_backslash_then_escaped_quote","the string scanner took the escaped quote of \"a\\\\\\\"b\" for the end of the literal; in a skipped #if region a /* after it swallowed the following lines")
 
+fixed("C01","5ccfe0d","pin:flags_leak_across_functions","flag knowledge survived from the end of one function into the next: a function starting with 'if (g2)' omitted the load")
+
+fixed("C01","914b4a3","pin:cmp_indexed_vs_register","'arr[Y] > Y' compared Y with itself: the recursive call through the accumulator used the unexchanged operand and operator")
+fixed("C15","914b4a3","pin:mirror_register_right","'Y < a[Y]' versus 'a[Y] > Y' differed (same defect)")
+
+fixed("C01","50c7af4","pin:switch_computed_case0","switch on a computed value: 'case 0' after another case tested the flags of the previous CMP")
+
 # ---------------- recorded, not repaired (each has a pinned witness in harness/src/pins.rs and a
 # generator rule that keeps the random pools out of the family)
 C01=[
@@ -88,13 +95,10 @@ C01=[
  ("unsigned_less_than_zero","'x < 0' / 'x >= 0' on an unsigned operand test the sign bit (true for x = 200)"),
  ("cond_value_in_arith","a comparison/logical value as right operand of arithmetic pushes A twice and pops once ('(a ^ b) + (c || c)' corrupts the stack)"),
  ("ysave_in_condition","arr[expr] inside a condition saves Y and pushes A but the taken branch skips the restore (loop counter Y corrupted, stack leak)"),
- ("cmp_indexed_vs_register","'arr[Y] > Y' compares Y with itself (the indexed operand is dropped)"),
  ("y_scratch_with_y","'arr[g & 7] = Y' stores the scratch index, not the programmer's Y"),
  ("deref_with_y","'arr[Y] = *p' uses Y = 0 for both accesses"),
- ("switch_computed_case0","switch on a computed value: 'case 0' after another case tests the flags of the previous CMP"),
  ("short_array_rmw","'sa[1] >>= 1' / '--sa[2]' on a short array element do not update the element correctly"),
  ("wide_compare_le_gt","16-bit '<=' and '>' test the two difference bytes for zero separately (0 <= 0xffff is false)"),
- ("flags_leak_across_functions","flag knowledge survives from the end of one function into the next: a function starting with 'if (g2)' omits the load"),
  ("mixed_signedness_follows_left","signedness of 8-bit arithmetic follows the left operand: '(signed + unsigned) >> 6' shifts arithmetically"),
  ("wide_condition_arith","'if (s & s)' on shorts tests the low byte only"),
  ("nested_call_clobbers_static_params","'f(10, f(3, 1))': the inner call overwrites the outer call's already-stored first argument"),
@@ -107,7 +111,6 @@ for n,w in C01: known("C01","pin:"+n,w)
 
 known("C01","pin:wide_dest_shift","'s = s << 5' on a short shifts the low byte and derives the high byte from the shifted low byte ('s <<= 5' is correct)")
 known("C15","pin:wide_mirror","16-bit 't >= s' versus 's <= t' differ (C01 family wide_compare_le_gt)")
-known("C15","pin:mirror_register_right","'Y < a[Y]' versus 'a[Y] > Y' differ (C01 family cmp_indexed_vs_register)")
 known("C15","pin:wide_shift_assign","'s <<= 5' versus 's = s << 5' on a short differ (C01 family wide_dest_shift)")
 known("C17","pin:pointer_into_split_port_ram","a char pointer set to a superchip / bank-RAM array holds the read-port address: a store through it writes the read port")
 known("C16","pin:deep_blocks_5000","5000 nested blocks (also 'if' chains and parentheses at similar depths) overflow pest's recursive descent on the 8 MiB stack: the process aborts; depth 512 is fine")
